@@ -43,6 +43,9 @@ type ttyModel struct {
 	panicView *int32 // View panics once this is set (key 'v')
 }
 
+// ttySeqDone: the marker that follows a size query in a sequence / batch
+type ttySeqDone struct{}
+
 func (m ttyModel) logf(f string, a ...interface{}) {
 	m.mu.Lock()
 	fmt.Fprintf(m.log, f+"\n", a...)
@@ -70,6 +73,8 @@ func (m ttyModel) Update(msg tea.Msg) (tea.Model, tea.Cmd) {
 		}
 	case tea.ResumeMsg:
 		m.logf("resume")
+	case ttySeqDone:
+		m.logf("seqdone")
 	case tea.KeyMsg:
 		m.logf("key %s", v.String())
 		switch v.String() {
@@ -84,6 +89,11 @@ func (m ttyModel) Update(msg tea.Msg) (tea.Model, tea.Cmd) {
 		case "s":
 			m.logf("suspending")
 			return m, tea.Suspend
+		case "S":
+			// the size query as an element of a sequence, followed by a marker
+			return m, tea.Sequence(tea.WindowSize(), func() tea.Msg { return ttySeqDone{} })
+		case "B":
+			return m, tea.Batch(tea.WindowSize(), func() tea.Msg { return ttySeqDone{} })
 		case "b":
 			m.logf("blocking")
 			for {
@@ -140,6 +150,16 @@ func childTTY(args []string) int {
 	}
 	if strings.Contains(mode, "alt") {
 		opts = append(opts, tea.WithAltScreen(), tea.WithMouseCellMotion(), tea.WithReportFocus())
+	}
+	if strings.Contains(mode, "filterws") {
+		// a filter that suppresses EVERY window-size report (and says so)
+		opts = append(opts, tea.WithFilter(func(_ tea.Model, msg tea.Msg) tea.Msg {
+			if ws, ok := msg.(tea.WindowSizeMsg); ok {
+				m.logf("filter-ws %d %d", ws.Width, ws.Height)
+				return nil
+			}
+			return msg
+		}))
 	}
 	if strings.Contains(mode, "stalesize") {
 		// hold the FIRST size query (the start-up one) after it has read the size, until the
@@ -458,6 +478,9 @@ func scenPty(out *scenOut, rr *rng, thorough bool) {
 		for _, mode := range []string{"default", "default-alt"} {
 			ptySuspend(out, mode)
 		}
+		ptySizeQueryShapes(out)
+		ptyFilterSeesSizes(out)
+		secondRunTermios(out)
 	}()
 	reps := 3
 	if thorough {
@@ -966,5 +989,149 @@ func ptySuspend(out *scenOut, mode string) {
 	if r.before != nil && after != nil && *r.before != *after {
 		out.fail(finding{Property: "C05", Class: "new", What: "termios of the input terminal differ from those before Run (after a suspension)", Input: desc,
 			Expected: fmt.Sprintf("%+v", *r.before), Observed: fmt.Sprintf("%+v", *after)})
+	}
+}
+
+// ptySizeQueryShapes: the WindowSize command as an element of a Sequence and inside a Batch (and
+// not only returned on its own): Update receives the true size each time, and the sequence goes on.
+func ptySizeQueryShapes(out *scenOut) {
+	desc := "WindowSize() as the first element of a Sequence (followed by a marker), then inside a Batch, after a resize each"
+	r, err := startPtyChild("default", 80, 24)
+	if err != nil {
+		return
+	}
+	defer r.cleanup()
+	if !r.waitLog("size ", 5*time.Second) {
+		return
+	}
+	time.Sleep(40 * time.Millisecond)
+	out.record("size-query-shapes", desc)
+	for i, key := range []string{"S", "B"} {
+		n0 := len(r.sizes())
+		d0 := len(r.linesWith("seqdone"))
+		r.pair.master.Write([]byte(key))
+		shape := map[string]string{"S": "a Sequence", "B": "a Batch"}[key]
+		if !waitFor(3*time.Second, func() bool { return len(r.sizes()) > n0 }) {
+			out.fail(finding{Property: "C18", Class: "new", What: "a WindowSize command inside " + shape + " did not produce a WindowSizeMsg", Input: desc,
+				Expected: "one more size report", Observed: strings.Join(r.sizes(), ", ")})
+			return
+		}
+		if s := r.sizes(); s[len(s)-1] != "80 24" {
+			out.fail(finding{Property: "C18", Class: "new", What: "a WindowSize command inside " + shape + " reported a wrong size", Input: desc, Expected: "80 24", Observed: s[len(s)-1]})
+		}
+		if !waitFor(3*time.Second, func() bool { return len(r.linesWith("seqdone")) > d0 }) {
+			out.fail(finding{Property: "C03", Class: "new", What: "the element after a WindowSize command in " + shape + " never ran", Input: desc})
+			return
+		}
+		_ = i
+	}
+	r.pair.master.Write([]byte("q"))
+	select {
+	case <-r.exited:
+	case <-time.After(3 * time.Second):
+	}
+}
+
+// ptyFilterSeesSizes: a filter that suppresses every WindowSizeMsg. Whatever produces the report -
+// the start-up query, a resize signal, the WindowSize command - the filter is consulted and Update
+// never sees a size (C16: returning nil suppresses the message entirely).
+func ptyFilterSeesSizes(out *scenOut) {
+	desc := "WithFilter dropping every WindowSizeMsg; start-up report, two resizes, two WindowSize commands"
+	r, err := startPtyChild("default-filterws", 80, 24)
+	if err != nil {
+		return
+	}
+	defer r.cleanup()
+	if !r.waitLog("filter-ws ", 5*time.Second) {
+		out.fail(finding{Property: "C16", Class: "new", What: "the filter was not consulted for the start-up WindowSizeMsg", Input: desc, Observed: strings.Join(r.logLines(), ";")})
+		return
+	}
+	time.Sleep(40 * time.Millisecond)
+	out.record("filter-sees-sizes", desc)
+	consulted := func() int { return len(r.linesWith("filter-ws ")) }
+	step := func(what string, f func()) bool {
+		c0 := consulted()
+		f()
+		if !waitFor(3*time.Second, func() bool { return consulted() > c0 }) {
+			out.fail(finding{Property: "C16", Class: "new", What: "the filter was not consulted for the WindowSizeMsg of " + what, Input: desc, Observed: strings.Join(r.logLines(), ";")})
+			return false
+		}
+		return true
+	}
+	ok := step("a resize", func() { setWinsize(r.pair.master, 100, 30) }) &&
+		step("a WindowSize command", func() { r.pair.master.Write([]byte("w")) }) &&
+		step("a second resize", func() { setWinsize(r.pair.master, 90, 20) }) &&
+		step("a WindowSize command inside a Sequence", func() { r.pair.master.Write([]byte("S")) })
+	time.Sleep(60 * time.Millisecond)
+	if s := r.sizes(); len(s) > 0 {
+		out.fail(finding{Property: "C16", Class: "new", What: "Update received a WindowSizeMsg although the filter suppresses every one of them", Input: desc, Expected: "none", Observed: strings.Join(s, ", ")})
+	}
+	_ = ok
+	r.pair.master.Write([]byte("q"))
+	select {
+	case <-r.exited:
+	case <-time.After(3 * time.Second):
+	}
+}
+
+// secondRunTermios: the same Program is run twice on a terminal; between the runs the application
+// changes the line discipline itself (echo off, as before asking for a password). EACH Run leaves
+// the settings exactly as they were before THAT Run (C05: "identical to those before Run").
+func secondRunTermios(out *scenOut) {
+	pp, err := openPty()
+	if err != nil {
+		return
+	}
+	defer pp.master.Close()
+	defer pp.slave.Close()
+	go func() { // drain what the program writes
+		b := make([]byte, 4096)
+		for {
+			if _, err := pp.master.Read(b); err != nil {
+				return
+			}
+		}
+	}()
+	desc := "one Program (input and output a pty), Run to completion (Quit from Init), echo switched off by the application, Run again"
+	ctl := newRecCtl()
+	ctl.initCmd = tea.Quit
+	p := tea.NewProgram(recModel{c: ctl}, tea.WithInput(pp.slave), tea.WithOutput(pp.slave), tea.WithoutSignalHandler())
+	runOnce := func() bool {
+		done := make(chan struct{})
+		go func() { p.Run(); close(done) }()
+		select {
+		case <-done:
+			return true
+		case <-time.After(5 * time.Second):
+			p.Kill()
+			return false
+		}
+	}
+	fd := int(pp.slave.Fd())
+	before1, e1 := unix.IoctlGetTermios(fd, unix.TCGETS)
+	if e1 != nil || !runOnce() {
+		return
+	}
+	out.record("second-run-termios", desc)
+	after1, _ := unix.IoctlGetTermios(fd, unix.TCGETS)
+	if after1 == nil || *after1 != *before1 {
+		out.fail(finding{Property: "C05", Class: "new", What: "termios of the input terminal differ from those before Run (first run)", Input: desc})
+		return
+	}
+	changed := *after1
+	changed.Lflag &^= unix.ECHO
+	changed.Cc[unix.VMIN] = 1
+	if err := unix.IoctlSetTermios(fd, unix.TCSETS, &changed); err != nil {
+		return
+	}
+	before2, _ := unix.IoctlGetTermios(fd, unix.TCGETS)
+	if !runOnce() {
+		out.fail(finding{Property: "C04", Class: "new", What: "a second Run of the same Program does not return", Input: desc})
+		return
+	}
+	after2, _ := unix.IoctlGetTermios(fd, unix.TCGETS)
+	if before2 != nil && after2 != nil && *before2 != *after2 {
+		out.fail(finding{Property: "C05", Class: "new", What: "termios of the input terminal after the SECOND Run of a Program differ from those before that Run (the settings of the first run were put back)", Input: desc,
+			Expected: fmt.Sprintf("lflag=%#x", before2.Lflag), Observed: fmt.Sprintf("lflag=%#x", after2.Lflag)})
 	}
 }
